@@ -1,8 +1,13 @@
-(* C05 — property theorems (statements only; proofs live in proofs/OpenClipSpec.v). *)
+(* C05 — property theorems (statements only; proofs live in proofs/OpenClipSpec.v and, for the sweep-line part,
+   proofs/Sweep1D_main.v). *)
 From Clip Require Import base.Geom base.Winding base.Region base.Dist base.GenPos model.OpenClipSpec proofs.OpenClipSpec.
-From Coq Require Import QArith.
+From Coq Require Import QArith List.
+Import ListNotations.
 Local Open Scope Z_scope.
 
+(* ===== Part 1: the specification oracle (model/OpenClipSpec.v) ===== *)
+
+(* the table that decides where an open subject survives is the property text *)
 Theorem C05_open_in_result_spec : forall fr wS wC,
   open_in_result Intersection fr wS wC = inside fr wC /\
   open_in_result Difference fr wS wC = negb (inside fr wC) /\
@@ -11,3 +16,42 @@ Theorem C05_open_in_result_spec : forall fr wS wC,
   open_in_result Union fr wS wC = negb (in_result Union fr wS wC).
 Proof. exact open_in_result_spec. Qed.
 Print Assumptions C05_open_in_result_spec.
+
+(* a cut parameter is strictly inside the open segment and the point at that parameter lies exactly on the supporting line
+   of the closed edge (all in integers: the point is [lerp]'s integer-scaled point, the closed edge is scaled alike) *)
+Theorem C05_crossing_parameter : forall a b c d,
+  proper_cross (a, b) (c, d) = true ->
+  let t := cross_par (a, b) (c, d) in
+  (0 < Qnum t < Zpos (Qden t)) /\
+  let m := lerp (a, b) t in cross (pscale (snd m) c) (pscale (snd m) d) (fst m) = 0.
+Proof. exact cross_par_spec. Qed.
+Print Assumptions C05_crossing_parameter.
+
+(* the pieces of an open segment start at 0, end at 1 and are linked end to start *)
+Theorem C05_pieces_partition : forall ts,
+  (exists hi r, mk_pieces ts = (0%Q, hi) :: r) /\ linked (mk_pieces ts) /\ snd (last (mk_pieces ts) (0%Q, 0%Q)) = 1%Q.
+Proof. exact mk_pieces_partition. Qed.
+Print Assumptions C05_pieces_partition.
+
+(* the interval-cover test behind "kept run covered by the solution" never says yes wrongly *)
+Theorem C05_cover_test_sound : forall start_ok end_ok ivs,
+  covered start_ok end_ok ivs = true ->
+  exists a b, start_ok a = true /\ end_ok b = true /\ Cov ivs a b.
+Proof. exact covered_sound. Qed.
+Print Assumptions C05_cover_test_sound.
+
+(* the hypothesis of the validation, general position of the whole input, unfolded; and the fact that a polyline folding
+   back on itself is outside it *)
+Theorem C05_hypothesis : forall S C O, general_position_C05 S C O = true ->
+  general_position (S ++ C) = true /\ gp_open (S ++ C) O = true /\ open_self_clear O = true /\ gp_joint (S ++ C) O = true.
+Proof. exact general_position_C05_open. Qed.
+Print Assumptions C05_hypothesis.
+
+Theorem C05_foldback_outside_hypothesis :
+  let C := [[(40,-10);(60,-10);(60,16);(40,16)]] in let O := [[(0,40);(100,10);(0,10);(90,10);(95,40)]] in
+  general_position_open [] C O = true /\ general_position_C05 [] C O = false.
+Proof. exact foldback_not_general. Qed.
+Print Assumptions C05_foldback_outside_hypothesis.
+
+(* ===== Part 2: the sweep-line toggle logic (model/Sweep1D.v) — theorems about the open edges of the sweep model
+   (proofs/Sweep1D_main.v: open_hot_iff, open_crossing_leaves_closed_unchanged) are added here by the integrator ===== *)
